@@ -104,6 +104,93 @@ theorem writer_excludes_readers (pref : Bool) (base : World) (v0 : View) (reqs :
   · intro j cj hj hwj
     exact countP_unique isWriter s.clients j i cj ci (by omega) hj hi hwj hw
 
+/-! ### lock balance — also on the path of a change that FAILS while being applied
+
+A request's change may contain a failing element (`Write.fail`: add-tag on a missing feature, an invalid
+feature, a failing part of a merged change); `Apply` then stops and returns an error (`applyFails`).  In
+`service.go` the error is looked at after `Unlock(); RLock()`, so the failing path takes exactly the lock steps
+of the succeeding one — that is `clientStep`, and `svc_no_deadlock`, `writer_excludes_readers` and the three
+theorems below hold for every request set, failing changes included. -/
+
+/-- A client only ever `RUnlock`s while it holds the read lock (it is one of the `readers` holders), and only
+`Unlock`s while it holds the write lock. -/
+theorem unlock_only_when_held (pref : Bool) (base : World) (v0 : View) (reqs : List Req) (s : State)
+    (h : Reachable (step pref) (init base v0 reqs) s) (i : Nat) (c : Client) (hc : s.clients[i]? = some c) :
+    ((c.pc = .upRUnlock ∨ c.pc = .finalRUnlock) → isReader c = true ∧ 0 < s.readers) ∧
+    (c.pc = .wunlock → isWriter c = true ∧ s.writer = true) := by
+  have hl := reachable_lockInv h
+  constructor
+  · intro hpc
+    have hr : isReader c = true := by rcases hpc with e | e <;> simp [isReader, e]
+    refine ⟨hr, ?_⟩
+    rw [hl.readers]
+    exact List.countP_pos_iff.mpr ⟨c, List.mem_of_getElem? hc, hr⟩
+  · intro hpc
+    have hw : isWriter c = true := by simp [isWriter, hpc]
+    refine ⟨hw, ?_⟩
+    have hpos : 0 < s.clients.countP isWriter := List.countP_pos_iff.mpr ⟨c, List.mem_of_getElem? hc, hw⟩
+    have := hl.writers
+    cases hsw : s.writer
+    · rw [hsw] at this; simp only [Bool.false_eq_true, ↓reduceIte] at this; omega
+    · rfl
+
+/-- The number of read-lock holders is exactly the number of clients inside a read phase, at every moment. -/
+theorem readers_balance (pref : Bool) (base : World) (v0 : View) (reqs : List Req) (s : State)
+    (h : Reachable (step pref) (init base v0 reqs) s) : s.readers = s.clients.countP isReader :=
+  (reachable_lockInv h).readers
+
+/-- When every request has returned, every lock has been released: each client released what it acquired. -/
+theorem locks_released_at_end (pref : Bool) (base : World) (v0 : View) (reqs : List Req) (s : State)
+    (h : Reachable (step pref) (init base v0 reqs) s) (ht : terminal s = true) :
+    s.readers = 0 ∧ s.writer = false := by
+  have hl := reachable_lockInv h
+  have hdone : ∀ c ∈ s.clients, c.pc = Pc.done := by
+    intro c hc; simpa using (List.all_eq_true.mp ht) c hc
+  have hr : s.clients.countP isReader = 0 :=
+    List.countP_eq_zero.mpr (fun c hc => by simp [isReader, hdone c hc])
+  have hw : s.clients.countP isWriter = 0 :=
+    List.countP_eq_zero.mpr (fun c hc => by simp [isWriter, hdone c hc])
+  refine ⟨by rw [hl.readers, hr], ?_⟩
+  have := hl.writers
+  rw [hw] at this
+  cases hsw : s.writer
+  · rfl
+  · rw [hsw] at this; simp at this
+
+/-- a change that fails while being applied -/
+def failing : Req := .change 0 [⟨none, .fail 9⟩]
+
+/-- **The early-return order breaks the balance** (`stepEarlyReturn`: `Unlock(); if err != nil { return };
+RLock()`): a single failing change reaches its deferred `RUnlock` with nobody holding the read lock — Go's
+`fatal error: sync: RUnlock of unlocked RWMutex`. -/
+theorem early_return_runlock_unheld (pref : Bool) :
+    ∃ s, Reachable (stepEarlyReturn pref) (init [] [(0, [])] [failing]) s ∧
+      s.clients.map (·.pc) = [Pc.finalRUnlock] ∧ s.readers = 0 := by
+  cases pref
+  · exact ⟨(runSched (stepEarlyReturn false) (init [] [(0, [])] [failing]) [0, 0, 0, 0, 0, 0, 0]).get (by decide),
+      Reachable.of_runSched [0, 0, 0, 0, 0, 0, 0] _ _ Reachable.refl (by simp), by decide, by decide⟩
+  · exact ⟨(runSched (stepEarlyReturn true) (init [] [(0, [])] [failing]) [0, 0, 0, 0, 0, 0, 0]).get (by decide),
+      Reachable.of_runSched [0, 0, 0, 0, 0, 0, 0] _ _ Reachable.refl (by simp), by decide, by decide⟩
+
+/-- … and with a reader in flight the stray `RUnlock` releases THAT reader's hold: a writer then applies its
+change while the reader is still in its read phase (`writer_excludes_readers` fails for the early-return order). -/
+theorem early_return_writer_meets_reader (pref : Bool) :
+    ∃ s, Reachable (stepEarlyReturn pref) (init [] [(0, [])] [failing, .query 0, .change 0 [⟨none, .set 1 1⟩]]) s ∧
+      s.clients.map (·.pc) = [Pc.done, Pc.eval, Pc.apply] ∧ s.writer = true := by
+  cases pref
+  · exact ⟨(runSched (stepEarlyReturn false) (init [] [(0, [])] [failing, .query 0, .change 0 [⟨none, .set 1 1⟩]])
+        [0, 0, 0, 0, 0, 0, 0, 1, 1, 0, 1, 1, 1, 1, 1]).get (by decide),
+      Reachable.of_runSched [0, 0, 0, 0, 0, 0, 0, 1, 1, 0, 1, 1, 1, 1, 1] _ _ Reachable.refl (by simp), by decide, by decide⟩
+  · exact ⟨(runSched (stepEarlyReturn true) (init [] [(0, [])] [failing, .query 0, .change 0 [⟨none, .set 1 1⟩]])
+        [0, 0, 0, 0, 0, 0, 0, 1, 1, 0, 1, 1, 1, 1, 1]).get (by decide),
+      Reachable.of_runSched [0, 0, 0, 0, 0, 0, 0, 1, 1, 0, 1, 1, 1, 1, 1] _ _ Reachable.refl (by simp), by decide, by decide⟩
+
+-- the failing path exists in the model of the code as it is: the change fails, the world keeps what was applied
+-- before the failing element, and the client still walks through rlock2 and finalRUnlock
+example : applyFails [.set 1 1, .fail 9, .set 2 2] = true ∧ applyWrites [] [.set 1 1, .fail 9, .set 2 2] = [(1, 1)] := by decide
+example : ((runSched (step true) (init [] [(0, [])] [failing]) [0, 0, 0, 0, 0, 0, 0, 0]).map
+    fun s => (s.clients.map (·.pc), s.readers)) = some ([Pc.finalRUnlock], 1) := by decide
+
 /-- The full statement of the property for the final worlds. -/
 def SerializableStatement : Prop :=
   ∀ (pref : Bool) (base : World) (v0 : View) (reqs : List Req) (s : State),
